@@ -1,12 +1,13 @@
 #!/usr/bin/env python3
-"""Run every registered check once (default quick) on /repo as it is; print one line per check. usage: run_all.py [quick|thorough] [seed]"""
+"""Run every registered check once (default quick) on /repo as it is; print one line per check. usage: run_all.py [quick|thorough] [seed] [property ...]   (properties in the given order; default: all, in MANIFEST order)"""
 import json, os, subprocess, sys, time
 V = os.path.dirname(os.path.dirname(os.path.abspath(__file__)))
 tier = sys.argv[1] if len(sys.argv) > 1 else "quick"; seed = sys.argv[2] if len(sys.argv) > 2 else "1"
 m = json.load(open(os.path.join(V, "MANIFEST.json")))
 bad = 0
-for c in m["checks"]:
-    p = c["property_id"]; t0 = time.time()
+order = sys.argv[3:] or [c["property_id"] for c in m["checks"]]
+for p in order:
+    t0 = time.time()
     env = dict(os.environ); env["VERIF_SEED"] = seed
     r = subprocess.run([os.path.join(V, "check"), p, "--tier", tier], stdout=subprocess.PIPE, stderr=subprocess.STDOUT, text=True, cwd=V, env=env)
     last = [l for l in r.stdout.splitlines() if l.startswith(p + " ")]
